@@ -205,23 +205,25 @@ def compare(data_sets, expected, norm):
 
 
 def _exc_key(job, mode, exc, path):
+    """Mechanism key of a library exception: layout + exception type + origin function (never the access mode, which is
+    in the message).  The brute force of extension-less files swallows the real exception, so the layout's own parser is
+    asked directly for the underlying origin."""
     o = monitors.exception_origin(exc)
-    if job["n"] == 1:
-        # a one-point table: is it the splitter indexing frequency[1]?  (ask the layout's own parser directly when the
-        # brute-force wrapper has swallowed the original exception)
-        oo = o
-        if o["func"] != "_split_sweeps" and job.get("parser", "").startswith("parse_") and path:
-            try:
-                import pyimpspec.data.formats as fm
+    oo = o
+    if o["func"] == "_brute_force" and job.get("parser", "").startswith("parse_") and path:
+        try:
+            import pyimpspec.data.formats as fm
 
-                with warnings.catch_warnings():
-                    warnings.simplefilter("ignore")
-                    getattr(fm, job["parser"])(path)
-            except Exception as e2:
-                oo = monitors.exception_origin(e2)
-        if oo["type"] == "IndexError" and oo["func"] == "_split_sweeps":
-            return "C06/single-point-table", o
-    return f"C06/{job['layout']}/{mode}-raised:{o['type']}@{o['func']}", o
+            with warnings.catch_warnings():
+                warnings.simplefilter("ignore")
+                getattr(fm, job["parser"])(path)
+        except Exception as e2:
+            oo = monitors.exception_origin(e2)
+    if job["n"] == 1 and oo["type"] == "IndexError" and oo["func"] == "_split_sweeps":
+        return "C06/single-point-table", o  # the splitter indexes frequency[1]
+    if job["layout"] == "csv" and job.get("dec") == "," and oo["type"] == "ParserError" and oo["func"] == "_alert_malformed":
+        return "C06/csv/decimal-comma-ragged-rows", o  # first attempt with sep=',' meets rows with different numbers of commas
+    return f"C06/{job['layout']}-raised:{oo['type']}@{oo['func']}", o
 
 
 def _witness(job, extra=None):
@@ -282,7 +284,7 @@ def run_job(job, res):
             probs, worst, points = compare(data_sets, job["expected"], job["norm"] if norm is None else norm)
         except Exception as e:  # a getter of a returned DataSet raised
             key, o = _exc_key(job, mode, e, path)
-            viol.append({"key": key.replace("-raised", "-getter-raised"), "msg": monitors.tb_tail(e), "witness": _witness(job)})
+            viol.append({"key": key.replace("-raised:", "/getter-raised:"), "msg": monitors.tb_tail(e), "witness": _witness(job)})
             return False
         res["evals"] += len(job["expected"])
         st("datasets_compared", len(job["expected"]))
@@ -371,10 +373,15 @@ def run_job(job, res):
             raise RuntimeError(f"harness: CLI rejected its arguments ({e})")
         except Exception as e:
             key, o = _exc_key(job, "cli", e, path)
-            if not ok and key != "C06/single-point-table":
-                key = f"C06/{layout}/cli-raised-after-{mode}-failure"
+            if not ok:
+                st("cli_skipped_after_parse_failure")  # same failure as the plain parse above, already reported
+                return
+            key = key.replace("-raised:", "/cli-raised:")
             viol.append({"key": key, "msg": f"[{job.get('header')}] pyimpspec parse {job['filename']} --output-format csv raised\n" + monitors.tb_tail(e),
                          "witness": _witness(job, {"origin": o})})
+            return
+        if not ok:  # only blame the CLI when the plain parse of the same file was right
+            st("cli_skipped_after_parse_failure")
             return
         tables = _split_cli_tables(printed, path)
         st("cli_tables", len(tables))
@@ -393,13 +400,10 @@ def run_job(job, res):
                 viol.append({"key": key, "msg": f"the table printed by the CLI could not be parsed: {t[:300]!r}\n" + monitors.tb_tail(e),
                              "witness": _witness(job, {"printed": printed[:1500]})})
                 return
-        if ok:  # only blame the CLI when the plain parse of the same file was right
-            n0 = len(viol)
-            judge(got, "cli", cell="cli", norm=True)
-            for v in viol[n0:]:
-                v["witness"]["printed"] = printed[:1500]
-        else:
-            st("cli_skipped_after_parse_failure")
+        n0 = len(viol)
+        judge(got, "cli", cell="cli", norm=True)
+        for v in viol[n0:]:
+            v["witness"]["printed"] = printed[:1500]
 
 
 # ------------------------------------------------------------------------------------------------
@@ -443,11 +447,10 @@ def _triple_configs(coords, triples, seed_list, full):
                             p.update(neg_re=n1, neg_im=n2)
                         else:
                             p.update(neg_ph=n2)
-                        c = None
-                        for _ in range(6):  # the free dimension 'suffix' may introduce a space: redraw
-                            c = F.random_csv_config(rng, p)
-                            if c is not None:
-                                break
+                        if sep in (" ", ";") and any(" " in F.NAMES[d][x] for d, x in (("f", i), (a, j), (b, k))):
+                            skipped += 1  # outside the detection contract: header would contain the separator
+                            continue
+                        c = F.random_csv_config(rng, p)  # free dimensions (suffix, sweeps, column order, number format, mode, size) at random
                         if c is None:
                             skipped += 1
                             continue
